@@ -145,6 +145,34 @@ fn exercise(tree: &Tree, game: &tree::G) -> Result<(), String> {
     Ok(())
 }
 
+fn integer_weights(t: &Tree) -> bool {
+    match t {
+        Tree::T { .. } => true,
+        Tree::C { kids, .. } => kids.iter().all(|k| matches!(k.w, crate::tree::Num::I(_)) && integer_weights(&k.t)),
+        Tree::P { kids, .. } => kids.iter().all(|k| integer_weights(&k.t)),
+    }
+}
+
+/// the first (or last) weight of every chance node with at least two outcomes multiplied by 2^70
+fn stretch(t: &Tree, first: bool) -> Tree {
+    use crate::tree::{CKid, Num, PKid};
+    match t {
+        Tree::T { .. } => t.clone(),
+        Tree::C { ci, kids } => Tree::C {
+            ci: ci.clone(),
+            kids: kids
+                .iter()
+                .enumerate()
+                .map(|(i, k)| {
+                    let hit = kids.len() >= 2 && (if first { i == 0 } else { i + 1 == kids.len() });
+                    CKid { w: if hit { Num::F(k.w.f() * 2f64.powi(70)) } else { k.w.clone() }, t: stretch(&k.t, first) }
+                })
+                .collect(),
+        },
+        Tree::P { pl, info, kids } => Tree::P { pl: *pl, info: info.clone(), kids: kids.iter().map(|k| PKid { a: k.a.clone(), t: stretch(&k.t, first) }).collect() },
+    }
+}
+
 /// pad the infoset of the first several-action decision node (at every node of that infoset with the same action list)
 /// with 65 535 terminal actions after the first action; None when the tree has no such node or the infoset is large
 fn widen(tree: &Tree) -> Option<Tree> {
@@ -293,6 +321,30 @@ pub fn replay(args: &Args) {
                         } else if !kinds.contains(&kind.as_str()) {
                             bad.push(json!({"class": "wide:kind", "what": "error names a rule the padded tree does not violate", "observed": kind, "rules": rules}));
                         }
+                    }
+                }
+            }
+        }
+        // STRETCH: the same tree with the first (or last) weight of every chance node multiplied by 2^70. Which weight
+        // vectors are proportional, positive, finite and of equal length is unchanged (one coordinate of every vector is
+        // multiplied by the same power of two), so the verdict must be the one TLC computed; the other outcomes now have
+        // probabilities near 1e-21, below any absolute tolerance
+        if (n % 5 == 2 || rules.iter().any(|r| r == "R3")) && integer_weights(&tree) {
+            let st = stretch(&tree, n % 2 == 0);
+            let res = util::catch(move || tree::build(&st).map(|_| ()).map_err(|e| format!("{e:?}")));
+            match res {
+                Err(msg) => bad.push(json!({"class": "stretch", "what": "from_root panicked on the tree with one weight of every chance node multiplied by 2^70", "observed": msg})),
+                Ok(Ok(())) => {
+                    // (R3s and R8 acceptances are the listed known findings of the plain replay: not repeated here)
+                    if !rules.is_empty() && !rules.iter().all(|r| r == "R3s" || r == "R8") {
+                        bad.push(json!({"class": format!("stretch:accepts:{}", rules_sorted.join("+")), "what": "accepted a tree outside the documented class once one weight of every chance node was multiplied by 2^70", "rules": rules}));
+                    }
+                }
+                Ok(Err(kind)) => {
+                    if rules.is_empty() {
+                        bad.push(json!({"class": "stretch:rejects", "what": "rejected a tree of the documented class once one weight of every chance node was multiplied by 2^70", "observed": kind}));
+                    } else if !kinds.contains(&kind.as_str()) {
+                        bad.push(json!({"class": "stretch:kind", "what": "error names a rule the stretched tree does not violate", "observed": kind, "rules": rules}));
                     }
                 }
             }
